@@ -56,6 +56,9 @@ pub enum Stmt {
     ExitOnError(bool),
     /// C10: `set_error msg` - replaces the stored last error without triggering the error flow
     SetError(String),
+    /// `zzlib = uname` / `zzlib = array_join ${arr0} -`: a script-implemented command that calls another one; its
+    /// output is not compared
+    Lib(u8),
 }
 
 #[derive(Clone, Debug, PartialEq, Eq, Hash)]
@@ -88,6 +91,8 @@ pub struct GenCfg {
     pub long_loops: bool,
     /// if / elseif conditions of command form whose command records the argument values it receives
     pub probe_conditions: bool,
+    /// statements that call a script-implemented library command which itself calls another one (uname, array_join)
+    pub lib_calls: bool,
 }
 
 struct G<'a, 'b> {
@@ -274,6 +279,9 @@ impl<'a, 'b> G<'a, 'b> {
                     }
                 };
             }
+        }
+        if self.cfg.lib_calls && self.t.chance(1, 10) {
+            return Stmt::Lib(if self.n_arrays > 0 && in_fn.is_none() { self.t.below(2) as u8 } else { 0 });
         }
         match self.t.weighted(&w) {
             0 => self.emit(in_fn),
@@ -677,6 +685,10 @@ impl<'a, 'b> Renderer<'a, 'b> {
                         let l = format!("emit {} probe ${{pe}} ${{pl}} ${{ps}} {}", id, ov);
                         self.line(depth, &l);
                     }
+                }
+                Stmt::Lib(k) => {
+                    let l = if *k == 0 { "zzlib = uname".to_string() } else { "zzlib = array_join ${arr0} -".to_string() };
+                    self.line(depth, &l);
                 }
                 Stmt::SetError(m) => {
                     let l = format!("set_error {}", render_expr(&Expr::Lit(m.clone())));
@@ -1213,6 +1225,13 @@ impl<'p> Model<'p> {
                 }
                 Stmt::ExitOnError(b) => {
                     self.exit_on_error = *b;
+                }
+                Stmt::Lib(_) => {
+                    self.classes.insert("script-implemented-command-that-calls-another-one");
+                    if self.loop_nest > 0 {
+                        self.classes.insert("nested-script-command-inside-a-loop-body");
+                    }
+                    self.tainted.insert("zzlib".to_string());
                 }
                 Stmt::SetError(_) => {
                     // replaces the stored last error only (every probe follows a real error, which replaces it again);
